@@ -112,7 +112,7 @@ fn main() {
     "histogram sources over i64 fields return no buckets at all (finding recorded under C12 and here); paging over the empty result is still exercised".into(),
   ];
   let quick = ctx.quick();
-  let n = ctx.n(100, 1200);
+  let n = ctx.n(100, 8000);
   ctx.run_cases("paging", n, |rng: &mut Rng, l: &mut Local, scratch: &std::path::PathBuf| {
     let ndocs = rng.urange(20, 150);
     let docs = aggs::gen_corpus(rng, ndocs);
